@@ -92,6 +92,9 @@ func parseFac(s string) (std bool, t tableFactory, ok bool) {
 		return false, nil, false
 	}
 	t = tableFactory{}
+	if s == "s/=" { // arithmetic-inside mode: the model resolves the standard factory through its regenerated table
+		return true, t, true
+	}
 	if s[2:] != "-" {
 		for _, e := range strings.Split(s[2:], ",") {
 			kvp := strings.SplitN(e, "=", 2)
@@ -372,6 +375,93 @@ type lineBuilder struct {
 	fac map[[2]int]string
 	std bool
 	tbl tableFactory
+	// what the restoration arithmetic of the line involves (decides whether the line can also run with the arithmetic
+	// INSIDE the model: `dv:=`, `fac:s/=`)
+	nArith   int  // calls of DiscardValue on float64-typed values
+	nanFloat bool // a NaN goes into or comes out of a float32/float64 target: its payload is not modelled (F64: NaN canonical)
+	platform bool // a float -> integer conversion of NaN / ±Inf / an out-of-range value (platform-defined in Go; the model reproduces amd64)
+}
+
+func vaF64s(v proto.Value) []float64 {
+	switch v.Type() {
+	case proto.TypeFloat64:
+		return []float64{v.Float64()}
+	case proto.TypeSliceFloat64:
+		return v.SliceFloat64()
+	}
+	return nil
+}
+
+func vaHasNaN(v proto.Value) bool {
+	switch v.Type() {
+	case proto.TypeFloat64:
+		x := v.Float64()
+		return x != x
+	case proto.TypeSliceFloat64:
+		for _, x := range v.SliceFloat64() {
+			if x != x {
+				return true
+			}
+		}
+	case proto.TypeFloat32:
+		x := v.Float32()
+		return x != x
+	case proto.TypeSliceFloat32:
+		for _, x := range v.SliceFloat32() {
+			if x != x {
+				return true
+			}
+		}
+	}
+	return false
+}
+
+// vaIntRange: the value range of the integer type DiscardValue converts to for the base type (ok=false: float target,
+// or a base type DiscardValue leaves alone)
+func vaIntRange(bt basetype.BaseType) (lo, hi float64, ok bool) {
+	switch bt {
+	case basetype.Sint8:
+		return -128, 127, true
+	case basetype.Uint8, basetype.Uint8z, basetype.Byte:
+		return 0, 255, true
+	case basetype.Sint16:
+		return -32768, 32767, true
+	case basetype.Uint16, basetype.Uint16z:
+		return 0, 65535, true
+	case basetype.Sint32:
+		return -2147483648, 2147483647, true
+	case basetype.Uint32, basetype.Uint32z:
+		return 0, 4294967295, true
+	case basetype.Sint64:
+		return -9223372036854775808, 9223372036854774784, true // largest float64 below 2^63
+	case basetype.Uint64, basetype.Uint64z:
+		return 0, 18446744073709549568, true // largest float64 below 2^64
+	}
+	return 0, 0, false
+}
+
+func (lb *lineBuilder) inspect(v, r proto.Value, bt basetype.BaseType, scale, offset float64) {
+	lb.nArith++
+	if bt == basetype.Float32 || bt == basetype.Float64 {
+		if vaHasNaN(v) || vaHasNaN(r) {
+			lb.nanFloat = true
+		}
+		return
+	}
+	lo, hi, ok := vaIntRange(bt)
+	if !ok {
+		return
+	}
+	for _, x := range vaF64s(v) {
+		dv := x
+		if !(scale == 1 && offset == 0) {
+			dv = (x + offset) * scale
+		}
+		q := math.Round(dv)
+		if q != q || q < lo || q > hi {
+			lb.platform = true
+		}
+	}
 }
 
 func newLine(std bool) *lineBuilder {
@@ -385,6 +475,7 @@ func (lb *lineBuilder) oracle(v proto.Value, bt basetype.BaseType, scale, offset
 		key := fmt.Sprintf("%s@%02x@%016x@%016x", printValue(v), byte(bt), math.Float64bits(scale), math.Float64bits(offset))
 		r := scaleoffset.DiscardValue(v, bt, scale, offset)
 		lb.dv[key] = printValue(r)
+		lb.inspect(v, r, bt, scale, offset)
 		v = r
 	}
 }
@@ -508,6 +599,26 @@ func (lb *lineBuilder) header(preserve bool, msgs []proto.Message) string {
 		mode = "s"
 	}
 	return fmt.Sprintf("o:%s fac:%s/%s dv:%s", o, mode, fs, sortedVals(lb.dv, ">"))
+}
+
+// headerInside renders the header of the same line with the arithmetic and the standard factory's look-ups INSIDE the
+// model: nothing the real code computed is carried (call after header). A custom factory is an input (an option of the
+// validator), so its table stays. ok=false: the line restores a NaN into a float base type (payload not modelled).
+func (lb *lineBuilder) headerInside(preserve bool, oldHeader string) (string, bool) {
+	if lb.nanFloat {
+		return "", false
+	}
+	o := "o"
+	if preserve {
+		o = "p"
+	}
+	fac := "s/="
+	if !lb.std {
+		// "o:x fac:c/<table> dv:…" → the table as the old header printed it (every entry of the custom factory)
+		parts := strings.SplitN(oldHeader, " ", 3)
+		fac = strings.TrimPrefix(parts[1], "fac:")
+	}
+	return fmt.Sprintf("o:%s fac:%s dv:=", o, fac), true
 }
 
 func mkField(num byte, bt basetype.BaseType, v proto.Value) proto.Field {
@@ -675,6 +786,7 @@ func printMsgs(msgs []proto.Message) string {
 
 func genValidate(emit func(string), tier string, rng *Rng) {
 	thorough := tier == "thorough"
+	insideOnly := false
 	// emitSeq emits one line for a message sequence under the given op and option
 	emitSeq := func(op string, preserve, std bool, custom tableFactory, msgs []proto.Message, extra string) {
 		lb := newLine(std)
@@ -685,7 +797,24 @@ func genValidate(emit func(string), tier string, rng *Rng) {
 			}
 		}
 		h := lb.header(preserve, msgs)
-		emit(op + " " + extra + h + " " + printMsgs(msgs))
+		if !insideOnly {
+			emit(op + " " + extra + h + " " + printMsgs(msgs))
+		}
+		// the same line with the arithmetic / the standard factory's look-ups inside the model, whenever it has any
+		if lb.nArith > 0 || len(lb.fac) > 0 || insideOnly {
+			if hi, ok := lb.headerInside(preserve, h); ok {
+				emit(op + " " + extra + hi + " " + printMsgs(msgs))
+				count("arith-inside")
+				if lb.platform {
+					count("arith-inside-platform-defined")
+				}
+			} else {
+				if insideOnly { // keep the line: the real results are carried as before
+					emit(op + " " + extra + h + " " + printMsgs(msgs))
+				}
+				count("arith-outside-nan-payload")
+			}
+		}
 	}
 	both := func(msgs []proto.Message) {
 		for _, p := range []bool{false, true} {
@@ -1013,6 +1142,10 @@ func genValidate(emit func(string), tier string, rng *Rng) {
 			emitSeq(op, true, true, nil, []proto.Message{rec(), one(mkField(1, basetype.String, proto.String("\xff")))[0], rec()}, x)
 		}
 	}
+	// --- i. the restoration arithmetic, run INSIDE the model only (fam_validate_arith.go)
+	insideOnly = true
+	genValidateArith(emitSeq, thorough, rng)
+	insideOnly = false
 }
 
 func genProtoValidate(emit func(string), tier string, rng *Rng) {
